@@ -287,6 +287,9 @@ pub struct Skips {
     pub keep: i32,
     #[serde(skip)]
     pub skipped: i32,
+    // the two-attribute spelling of skip
+    #[serde(skip_serializing, skip_deserializing)]
+    pub skipped_both_ways: i32,
     #[serde(skip_serializing_if = "is_zero", default)]
     #[avro(default = "0")]
     pub maybe: i32,
@@ -297,7 +300,7 @@ pub struct Skips {
 }
 impl Corpus for Skips {
     fn arb(c: &mut Choices) -> Self {
-        Skips { keep: gen_int(c), skipped: 0, maybe: if c.bool() { 0 } else { gen_int(c) }, opt: opt(c, string), last: string(c) }
+        Skips { keep: gen_int(c), skipped: 0, skipped_both_ways: 0, maybe: if c.bool() { 0 } else { gen_int(c) }, opt: opt(c, string), last: string(c) }
     }
     same_by_debug!();
     fn interesting(&self) -> bool {
@@ -644,10 +647,14 @@ pub enum SnakeEnum {
     SecondValue,
     #[serde(rename = "third")]
     ThirdValue,
+    // runs of capitals: serde puts an underscore before every capital but the first
+    IOError,
+    AB,
+    HTTPStatusX,
 }
 impl Corpus for SnakeEnum {
     fn arb(c: &mut Choices) -> Self {
-        [SnakeEnum::FirstValue, SnakeEnum::SecondValue, SnakeEnum::ThirdValue][c.pick(3)].clone()
+        [SnakeEnum::FirstValue, SnakeEnum::SecondValue, SnakeEnum::ThirdValue, SnakeEnum::IOError, SnakeEnum::AB, SnakeEnum::HTTPStatusX][c.pick(6)].clone()
     }
     same_by_debug!();
 }
